@@ -244,7 +244,7 @@ def call_model(c, t, at, edge):
         return S({})
     # ---------------------------------------------------------------- iterator plumbing (items are modelled at `next`)
     if short in ("into_iter", "iter", "iter_mut", "enumerate", "rev", "copied", "cloned", "by_ref", "take", "skip", "zip", "chain", "map", "filter", "peekable",
-                 "flat_map", "filter_map", "take_while", "skip_while", "fuse", "inspect") and not ("option::Option" in name and short in ("filter", "map", "take", "zip", "copied", "cloned", "inspect")):
+                 "flat_map", "filter_map", "take_while", "skip_while", "fuse", "inspect") and not (("option::Option" in name or "result::Result" in name) and short in ("filter", "map", "take", "zip", "copied", "cloned", "inspect")):
         sq = seq_of(c, t, at, edge, site)
         if sq is not None:
             return sq          # an iterator is abstracted by the sequence it yields: (how many items, what an item looks like)
@@ -261,6 +261,21 @@ def call_model(c, t, at, edge):
         # length-preserving for Vec when collecting a map over a known collection; otherwise unknown length
         el = elem_of_type(c, t)
         src = args[0] if args else None
+        sq0 = seq_of(c, src, at, edge, site) if src is not None else None
+        ty0 = c.ft.tyof(t) or ""
+        if sq0 is not None and sq0[0] == "b":
+            return BOT
+        if sq0 is not None and sq0[0] == "v" and ty0.startswith(("std::vec::Vec<", "alloc::vec::Vec<")):
+            return V(sq0[1], sq0[2], None)
+        if sq0 is not None and sq0[0] == "v" and (ty0.startswith("std::result::Result<std::vec::Vec<") or ty0.startswith("std::option::Option<std::vec::Vec<")):
+            okv, bad = ("Ok", "Err") if ty0.startswith("std::result") else ("Some", "None")
+            inner = TOP
+            e0 = sq0[2]
+            if e0[0] == "e":
+                for vn, pl in e0[1]:
+                    if vn == okv:
+                        inner = sget(pl, "0") or TOP
+            return E({okv: S({"0": V(sq0[1], inner, None)}), bad: (S({"0": TOP}) if bad == "Err" else S({}))})
         ln = I(0, MAXLEN)
         elem = el
         if src is not None:
@@ -505,6 +520,42 @@ def call_model(c, t, at, edge):
             return R(v)
         return c.top_for(t)
     if name.endswith("LocalKey::with"):
+        return c.top_for(t)
+    if short in ("map", "map_err", "and_then") and len(args) == 2 and ("result::Result" in name or "option::Option" in name):
+        # Option / Result combinators: the function (closure or fn item) is applied to the payload of the active variant
+        a = av(args[0])
+        if a[0] == "b":
+            return BOT
+        is_res = "result::Result" in name
+        act = ("Err" if short == "map_err" else "Ok") if is_res else "Some"
+        pl = variant_payload(a, act) if a[0] == "e" else None
+        path_, ct_ = closure_of(c, args[1])
+        r_ = None
+        if pl is not None:
+            if path_:
+                r_ = call_closure(c, path_, ct_, [pl], at, edge, site)
+            else:
+                fr = args[1]
+                while fr[0] in ("ref", "deref"):
+                    fr = fr[2] if fr[0] == "ref" else fr[1]
+                if fr[0] == "fnref" and fr[1] in facts.fns:
+                    r_ = eng.summary(fr[1], (pl,), caller=(c.path, c.args, site))
+                    if c.final and c.is_live() and at is not None:
+                        c.note_callee(fr[1], (pl,))
+        if a[0] == "e" and r_ is not None:
+            out_ = {}
+            for vn, vp in a[1]:
+                if vn != act:
+                    out_[vn] = vp
+            if short == "and_then":
+                if r_[0] == "e":
+                    for vn, vp in r_[1]:
+                        out_[vn] = join(out_[vn], vp) if vn in out_ else vp
+                    return E(out_)
+                return c.top_for(t)
+            if any(vn == act for vn, _vp in a[1]):
+                out_[act] = S({"0": r_})
+            return E(out_)
         return c.top_for(t)
     if short == "filter" and len(args) == 2 and "Option" in name:
         # Some(v).filter(p) is Some(v) or None; the predicate sees &v
